@@ -73,6 +73,9 @@ def carriers(m, w):
     out = []
     out.append((("mn", "MOV", [reg(rs[1]), m]), "load"))
     out.append((("mn", "MOV", [m, reg(rs[2])]), "store"))
+    # the accumulator competes with the moffs forms A0..A3 (which must lose whenever a register takes part in the address)
+    out.append((("mn", "MOV", [reg(rs[0]), m]), "acc-load"))
+    out.append((("mn", "MOV", [m, reg(rs[0])]), "acc-store"))
     out.append((("mn", "ADD", [reg(rs[3]), m]), "alu-load"))
     out.append((("mn", "CMP", [m, reg(rs[1])]), "alu-store"))
     return out
@@ -162,7 +165,7 @@ def mem_skeleton(mode_full=False):
                 continue
             m = mem_exp(b, i, s, d)
             for w in ((8, 16, 32) if mode_full else (32, 8)):
-                for st, role in (carriers(m, w) if mode_full else carriers(m, w)[:2]):
+                for st, role in (carriers(m, w) if mode_full else carriers(m, w)[:4]):
                     out.append((st, {"form": "mem32 " + role, "w": w, "mem": mem_desc(b, i, s, d, ""), "asize": 32}))
             ms = sized(m, 32)
             out.append((("mn", "MOV", [ms, imm(0x12)]), {"form": "mem32 store-imm", "w": 32, "mem": mem_desc(b, i, s, d, "DWORD"), "asize": 32, "imm": 0x12}))
